@@ -53,7 +53,7 @@ type (
 	}
 	// CS is pointer bearing component S.
 	CS struct {
-		Ptr *int64
+		Ptr *Big
 		Sl  []int32
 		Str string
 		M   map[int32]int32
@@ -107,8 +107,22 @@ func Norm(c Comp, tok int64) int64 {
 	return tok
 }
 
+// Big is the pointee of CS.Ptr: 32 bytes, so that it is never batched by the tiny allocator
+// and can be collected individually (C11 release oracle).
+type Big [4]int64
+
+// OnAllocS, if set, is told about every pointee allocated for a CS value (C11).
+var OnAllocS func(tok int64, p *Big)
+
 //go:noinline
-func newInt64(v int64) *int64 { p := new(int64); *p = v; return p }
+func newBig(v int64) *Big {
+	p := new(Big)
+	*p = Big{v, ^v, v, 7}
+	if OnAllocS != nil {
+		OnAllocS(v, p)
+	}
+	return p
+}
 
 // Write stores the token into the component at p.
 func Write(c Comp, p unsafe.Pointer, tok int64) {
@@ -126,7 +140,7 @@ func Write(c Comp, p unsafe.Pointer, tok int64) {
 			return
 		}
 		*(*CS)(p) = CS{
-			Ptr: newInt64(tok),
+			Ptr: newBig(tok),
 			Sl:  []int32{int32(tok), int32(tok >> 32), 7},
 			Str: strconv.FormatInt(tok, 10),
 			M:   map[int32]int32{1: int32(tok)},
@@ -171,7 +185,10 @@ func Read(c Comp, p unsafe.Pointer) (tok int64, ok bool) {
 		if v.Ptr == nil || len(v.Sl) != 3 || v.M == nil {
 			return -1, false
 		}
-		t := *v.Ptr
+		t := v.Ptr[0]
+		if *v.Ptr != (Big{t, ^t, t, 7}) {
+			return t, false
+		}
 		if v.Sl[0] != int32(t) || v.Sl[1] != int32(t>>32) || v.Sl[2] != 7 {
 			return t, false
 		}
